@@ -291,7 +291,10 @@ func calcSegmentAvailabilityTime(a *asset, rep *RepData, nr uint32, cfg *Respons
 		return int64(cfg.StartTimeS) * 1000, nil
 	}
 	segAvailTimeS -= ato
-	milliSeconds := int64(segAvailTimeS * 1_000)
+	// Round up: a truncated value can be 1 ms before the segment is available
+	// (e.g. 60060/30000 s * 1000 = 2001.9999999999998), and a request at that
+	// time is rejected as too early.
+	milliSeconds := int64(math.Ceil(segAvailTimeS * 1_000))
 	return milliSeconds, nil
 }
 
